@@ -1,0 +1,40 @@
+//go:build verif
+
+// Contracts for the deductive verifier in /verif (comment-only file; compiled
+// only with -tags verif and declares nothing).
+
+package gep
+
+//@ # ---------------------------------------------------------------- C07 ---
+//@ # LLVM's rule for the result type of getelementptr, transcribed from the LangRef:
+//@ # gwalk(e, idx, n): the type reached from e by the indices idx[1..n) (the first index steps through
+//@ # the base pointer and does not change the type); arrays and vectors step to their element type,
+//@ # structs to the field selected by the constant index.
+//@ macro gstep(t types.Type, ix Index) types.Type = ite(typeis(t, "*types.VectorType"), cast(t, "*types.VectorType").ElemType, ite(typeis(t, "*types.ArrayType"), cast(t, "*types.ArrayType").ElemType, cast(t, "*types.StructType").Fields[ix.Val]))
+//@ rec spec gwalk(e types.Type, idx []Index, n int) types.Type reads {elems(Index), types.ArrayType.ElemType, types.VectorType.ElemType, types.StructType.Fields, elems(types.Type)} = ite(n <= 1, e, gstep(gwalk(e, idx, n - 1), idx[n - 1]))
+//@ macro srcvl(src types.Type) uint64 = ite(typeis(src, "*types.VectorType"), cast(src, "*types.VectorType").Len, 0)
+//@ macro srcsc(src types.Type) bool = typeis(src, "*types.VectorType") && cast(src, "*types.VectorType").Scalable
+//@ macro srcas(src types.Type) types.AddrSpace = ite(typeis(src, "*types.PointerType"), cast(src, "*types.PointerType").AddrSpace, cast(cast(src, "*types.VectorType").ElemType, "*types.PointerType").AddrSpace)
+//@ # isptr(r, e, as): r is a pointer to e in address space as
+//@ macro isptr(r types.Type, e types.Type, as types.AddrSpace) bool = typeis(r, "*types.PointerType") && cast(r, "*types.PointerType").ElemType == e && cast(r, "*types.PointerType").AddrSpace == as
+//@ func ResultType
+//@   props C07
+//@   # the base is a pointer or a (non-empty) vector of pointers
+//@   requires src != nil && (typeis(src, "*types.PointerType") || (typeis(src, "*types.VectorType") && cast(src, "*types.VectorType").Len != 0 && typeis(cast(src, "*types.VectorType").ElemType, "*types.PointerType")))
+//@   # every index after the first steps into an aggregate; struct fields are selected by in-range constants
+//@   requires forall(n, 1, len(indices), typeis(gwalk(elemType, indices, n), "*types.VectorType") || typeis(gwalk(elemType, indices, n), "*types.ArrayType") || (typeis(gwalk(elemType, indices, n), "*types.StructType") && indices[n].HasVal && 0 <= indices[n].Val && indices[n].Val < len(cast(gwalk(elemType, indices, n), "*types.StructType").Fields)))
+//@   # all vector operands have the same number of elements and the same scalability (LLVM verifier rule)
+//@   requires forall(i, 0, len(indices), indices[i].VectorLen != 0 && srcvl(src) != 0 ==> indices[i].VectorLen == srcvl(src) && indices[i].Scalable == srcsc(src))
+//@   requires forall(i int, j int, 0 <= i && i < j && j < len(indices) && indices[i].VectorLen != 0 && indices[j].VectorLen != 0 ==> indices[i].VectorLen == indices[j].VectorLen && indices[i].Scalable == indices[j].Scalable)
+//@   assigns nothing
+//@   # (gwalk is evaluated in the heap on entry: the call only writes the objects it allocates)
+//@   # no vector operand: a pointer to the element reached, in the address space of the base
+//@   ensures srcvl(src) == 0 && forall(i, 0, len(indices), indices[i].VectorLen == 0) ==> fresh(cast(result, "*types.PointerType")) && isptr(result, old(gwalk(elemType, indices, len(indices))), srcas(src))
+//@   # some vector operand: a vector of such pointers with that operand's length and scalability
+//@   ensures srcvl(src) != 0 || exists(i, 0, len(indices), indices[i].VectorLen != 0) ==> typeis(result, "*types.VectorType") && isptr(cast(result, "*types.VectorType").ElemType, old(gwalk(elemType, indices, len(indices))), srcas(src))
+//@   ensures srcvl(src) != 0 ==> cast(result, "*types.VectorType").Len == srcvl(src) && cast(result, "*types.VectorType").Scalable == srcsc(src)
+//@   ensures forall(i, 0, len(indices), indices[i].VectorLen != 0 ==> cast(result, "*types.VectorType").Len == indices[i].VectorLen && cast(result, "*types.VectorType").Scalable == indices[i].Scalable)
+//@   loop 0: invariant 0 <= range_i && range_i <= len(indices) && e == gwalk(elemType, indices, range_i)
+//@   loop 0: invariant srcvl(src) != 0 ==> resultVectorLength == srcvl(src) && resultVectorScalable == srcsc(src)
+//@   loop 0: invariant forall(j, 0, range_i, indices[j].VectorLen != 0 ==> resultVectorLength == indices[j].VectorLen && resultVectorScalable == indices[j].Scalable)
+//@   loop 0: invariant srcvl(src) == 0 && forall(j, 0, range_i, indices[j].VectorLen == 0) ==> resultVectorLength == 0
